@@ -48,8 +48,10 @@ type world struct {
 
 func (sp *spec) producer(w *world, path, key string, in *schema.StreamReader[Val], inVal Val, prefixOnly bool) *schema.StreamReader[Val] {
 	sr, sw := schema.Pipe[Val](sp.cap)
+	vsched.HLock() // the counters are shared by node goroutines and producers (no-op under the scheduler, a mutex in the race pass)
 	w.started[path]++
 	vsched.Note(100)
+	vsched.HUnlock()
 	vsched.GoNamed("prod:"+path, func() {
 		acc := Val{}
 		for k, v := range inVal {
@@ -83,8 +85,10 @@ func (sp *spec) producer(w *world, path, key string, in *schema.StreamReader[Val
 			}
 		}
 		sw.Close()
+		vsched.HLock()
 		w.finished[path]++
 		vsched.Note(100)
+		vsched.HUnlock()
 	})
 	return sr
 }
@@ -414,9 +418,11 @@ func main() {
 	c.Res.Assumptions = []string{
 		"harness obligations: every producer stops when Send reports closed and closes its writer; every transformable node closes its input; stream branches close their input; the caller always closes the output stream",
 		"happens-before state caching is on: stream and task-manager code is synchronised through channels, mutexes, Once and atomics (shared harness counters are ordered with vsched.Note)",
+		harness.RacePassAssumption,
 	}
-	c.Res.Explanation = "stateless exhaustive exploration of real streaming runs with producer threads; oracle at quiescence after the caller closed its stream: no managed thread is blocked (exact, from the scheduler's thread table), every started producer finished (it was told 'closed' or sent everything), no deadlock, no panic"
+	c.Res.Explanation = "stateless exhaustive exploration of real streaming runs with producer threads; oracle at quiescence after the caller closed its stream: no managed thread is blocked (exact, from the scheduler's thread table), every started producer finished (it was told 'closed' or sent everything), no deadlock, no panic. " + harness.RacePassExplanation
 	quick := c.Quick()
+	rp := c.StartRacePass("./checks/c19") // worker 0 only: native -race build of this package, free runs of the scenario bodies
 	sh := shapes()
 	bounds := []int{0, 1, 2}
 	if !quick {
@@ -540,5 +546,6 @@ func main() {
 		}
 	}
 	c.ExploreAll()
+	rp.Collect()
 	c.Finish()
 }
